@@ -1,7 +1,904 @@
-//! C12 engine (stub)
+//! C12: a deterministic scheduler over REAL threads running the REAL `UnixFd` code.
+//!
+//! Every worker thread installs a `verif_hooks` callback that reports each hook point (FdLoad,
+//! FdCompareExchange, FdInnerDrop, FdDup, FdClose) to the scheduler and blocks until the scheduler grants
+//! the next step; the start of every operation is a blocking point as well. At any moment at most one
+//! worker runs. The scheduler enumerates EVERY interleaving (stateless DFS: the program set is re-run from
+//! scratch for each complete schedule) of small program sets over take / get / dup / clone / drop on clones
+//! of one handle that wraps a real descriptor, and for every complete schedule
+//!  * writes `c12.run <programs> <schedule>` + the observation (arrival point after each grant, per-thread
+//!    results, dup/close log with abstract descriptor names, kernel state of the original at the end) which
+//!    the Lean model must reproduce on the same schedule, and
+//!  * evaluates the property directly (see `check_execution`).
+use rustbus::verif_hooks::{set_callback, Point};
+use rustbus::wire::UnixFd;
+use std::cell::{Cell, RefCell};
+use std::collections::HashMap;
+use std::rc::Rc;
+use std::sync::mpsc::{channel, Receiver, Sender};
+use std::time::Duration;
 use vcore::common::*;
 
+#[derive(Clone, Copy, PartialEq, Eq, Debug)]
+enum OpK {
+    Take,
+    Get,
+    Dup,
+    Clone,
+    Drop,
+}
+
+impl OpK {
+    fn ch(self) -> char {
+        match self {
+            OpK::Take => 't',
+            OpK::Get => 'g',
+            OpK::Dup => 'd',
+            OpK::Clone => 'c',
+            OpK::Drop => 'x',
+        }
+    }
+    fn parse(c: char) -> Option<OpK> {
+        Some(match c {
+            't' => OpK::Take,
+            'g' => OpK::Get,
+            'd' => OpK::Dup,
+            'c' => OpK::Clone,
+            'x' => OpK::Drop,
+            _ => return None,
+        })
+    }
+}
+
+const ALL_OPS: [OpK; 5] = [OpK::Take, OpK::Get, OpK::Dup, OpK::Clone, OpK::Drop];
+
+/// where a worker waits
+#[derive(Clone, Copy, PartialEq, Eq, Debug)]
+enum Pt {
+    OpStart,
+    Load,
+    Cas,
+    InnerDrop,
+    Dup(i32),
+    Close(i32),
+}
+
+/// what an operation returned (raw descriptor numbers; the scheduler maps them to names)
+#[derive(Clone, Debug, PartialEq, Eq)]
+enum ResK {
+    Take(Option<i32>),
+    Get(Option<i32>),
+    DupOk(i32),
+    DupTaken,
+    DupIo,
+    Cloned,
+    Dropped,
+}
+
+impl ResK {
+    fn sees_fd(&self) -> bool {
+        matches!(self, ResK::Take(Some(_)) | ResK::Get(Some(_)) | ResK::DupOk(_))
+    }
+}
+
+enum Msg {
+    Arrived { tid: usize, pt: Pt, result: Option<ResK>, notes: Vec<String> },
+    Finished { tid: usize, result: Option<ResK>, notes: Vec<String>, panicked: Option<String> },
+}
+
+enum Cmd {
+    Job { prog: Vec<OpK>, handle: UnixFd },
+    Go,
+    Quit,
+}
+
+struct Ctx {
+    tid: usize,
+    tx: Sender<Msg>,
+    rx: Receiver<Cmd>,
+    /// the thread is dropping the private duplicate it just made: its atomics are invisible to everybody
+    /// else, only its close is a scheduling point
+    private: Cell<bool>,
+    private_seq: RefCell<Vec<Point>>,
+    pending: RefCell<Option<ResK>>,
+    notes: RefCell<Vec<String>>,
+}
+
+impl Ctx {
+    /// report the point and block until the scheduler grants the next step
+    fn arrive(&self, pt: Pt) {
+        let result = self.pending.borrow_mut().take();
+        let notes = std::mem::take(&mut *self.notes.borrow_mut());
+        let _ = self.tx.send(Msg::Arrived { tid: self.tid, pt, result, notes });
+        match spin_recv(&self.rx, None) {
+            Some(Cmd::Go) => {}
+            _ => panic!("c12 worker: scheduler went away"),
+        }
+    }
+    fn hook(&self, p: Point) {
+        if self.private.get() {
+            match p {
+                Point::FdClose(fd) => self.arrive(Pt::Close(fd)),
+                other => self.private_seq.borrow_mut().push(other),
+            }
+        } else {
+            let pt = match p {
+                Point::FdLoad => Pt::Load,
+                Point::FdCompareExchange => Pt::Cas,
+                Point::FdInnerDrop => Pt::InnerDrop,
+                Point::FdDup(fd) => Pt::Dup(fd),
+                Point::FdClose(fd) => Pt::Close(fd),
+            };
+            self.arrive(pt);
+        }
+    }
+}
+
+/// receive with a short busy-wait first: a hand-over between two running threads then costs well under a
+/// microsecond instead of two futex round trips; falls back to a blocking receive
+fn spin_recv<T>(rx: &Receiver<T>, timeout: Option<Duration>) -> Option<T> {
+    for i in 0..200_000u32 {
+        match rx.try_recv() {
+            Ok(m) => return Some(m),
+            Err(std::sync::mpsc::TryRecvError::Disconnected) => return None,
+            Err(std::sync::mpsc::TryRecvError::Empty) => {}
+        }
+        if i % 256 == 255 {
+            std::thread::yield_now();
+        } else {
+            std::hint::spin_loop();
+        }
+    }
+    match timeout {
+        Some(t) => rx.recv_timeout(t).ok(),
+        None => rx.recv().ok(),
+    }
+}
+
+fn run_job(ctx: &Rc<Ctx>, prog: Vec<OpK>, handle: UnixFd) {
+    let mut handles = vec![handle];
+    for op in prog {
+        ctx.arrive(Pt::OpStart);
+        let res = match op {
+            OpK::Take => {
+                let h = handles.pop().expect("program owns a handle");
+                ResK::Take(h.take_raw_fd())
+            }
+            OpK::Get => ResK::Get(handles.last().expect("program owns a handle").get_raw_fd()),
+            OpK::Dup => match handles.last().expect("program owns a handle").dup() {
+                Ok(d) => {
+                    ctx.private.set(true);
+                    ctx.private_seq.borrow_mut().clear();
+                    let n = d.get_raw_fd();
+                    drop(d);
+                    ctx.private.set(false);
+                    let seq = ctx.private_seq.borrow().clone();
+                    if seq != [Point::FdLoad, Point::FdInnerDrop, Point::FdLoad, Point::FdCompareExchange] {
+                        ctx.notes.borrow_mut().push(format!("dup-result-drop-hooks={:?}", seq));
+                    }
+                    match n {
+                        Some(n) => ResK::DupOk(n),
+                        None => {
+                            ctx.notes.borrow_mut().push("fresh duplicate reports no descriptor".into());
+                            ResK::DupOk(-1)
+                        }
+                    }
+                }
+                // DupError is not exported by the crate; it derives Debug
+                Err(e) => {
+                    if format!("{:?}", e) == "AlreadyTaken" {
+                        ResK::DupTaken
+                    } else {
+                        ResK::DupIo
+                    }
+                }
+            },
+            OpK::Clone => {
+                let c = handles.last().expect("program owns a handle").clone();
+                handles.push(c);
+                ResK::Cloned
+            }
+            OpK::Drop => {
+                drop(handles.pop().expect("program owns a handle"));
+                ResK::Dropped
+            }
+        };
+        *ctx.pending.borrow_mut() = Some(res);
+    }
+    // end of the thread: the handles it still owns go out of scope, one after the other
+    while let Some(h) = handles.pop() {
+        ctx.arrive(Pt::OpStart);
+        drop(h);
+        *ctx.pending.borrow_mut() = Some(ResK::Dropped);
+    }
+}
+
+fn worker(tid: usize, tx: Sender<Msg>, rx: Receiver<Cmd>) {
+    let ctx = Rc::new(Ctx {
+        tid,
+        tx,
+        rx,
+        private: Cell::new(false),
+        private_seq: RefCell::new(Vec::new()),
+        pending: RefCell::new(None),
+        notes: RefCell::new(Vec::new()),
+    });
+    let c2 = ctx.clone();
+    set_callback(Some(Box::new(move |p| c2.hook(p))));
+    loop {
+        match spin_recv(&ctx.rx, None).ok_or(()) {
+            Ok(Cmd::Job { prog, handle }) => {
+                ctx.private.set(false);
+                let r = std::panic::catch_unwind(std::panic::AssertUnwindSafe(|| run_job(&ctx, prog, handle)));
+                let panicked = r.err().map(|e| {
+                    e.downcast_ref::<String>()
+                        .cloned()
+                        .or_else(|| e.downcast_ref::<&str>().map(|s| s.to_string()))
+                        .unwrap_or_else(|| "panic".into())
+                });
+                let result = ctx.pending.borrow_mut().take();
+                let notes = std::mem::take(&mut *ctx.notes.borrow_mut());
+                let _ = ctx.tx.send(Msg::Finished { tid, result, notes, panicked });
+            }
+            Ok(Cmd::Go) => {}
+            Ok(Cmd::Quit) | Err(_) => break,
+        }
+    }
+    set_callback(None);
+}
+
+struct Pool {
+    cmd: Vec<Sender<Cmd>>,
+    rx: Receiver<Msg>,
+    joins: Vec<std::thread::JoinHandle<()>>,
+}
+
+impl Pool {
+    fn new(n: usize) -> Pool {
+        let (tx, rx) = channel();
+        let mut cmd = Vec::new();
+        let mut joins = Vec::new();
+        for tid in 0..n {
+            let (ctx, crx) = channel();
+            let tx = tx.clone();
+            joins.push(std::thread::spawn(move || worker(tid, tx, crx)));
+            cmd.push(ctx);
+        }
+        Pool { cmd, rx, joins }
+    }
+    fn quit(self) {
+        for c in &self.cmd {
+            let _ = c.send(Cmd::Quit);
+        }
+        for j in self.joins {
+            let _ = j.join();
+        }
+    }
+}
+
+fn fd_open(fd: i32) -> bool {
+    unsafe { libc::fcntl(fd, libc::F_GETFD) != -1 }
+}
+
+/// one finished operation, for the direct checks
+struct OpRec {
+    tid: usize,
+    kind: OpK,
+    /// step index of the grant that executed the operation's first load on the shared cell
+    load_step: Option<usize>,
+    /// step index of the grant that executed the operation's own compare_exchange (take only)
+    cas_step: Option<usize>,
+    end_step: usize,
+    res: ResK,
+}
+
+struct Exec {
+    schedule: Vec<u8>,
+    enabled: Vec<u8>,
+    obs: String,
+    violations: Vec<String>,
+    fatal: Option<String>,
+    preempted_mid_op: bool,
+    take_won: bool,
+    take_lost_cas: u64,
+    closes_orig: u64,
+    last_drop_in_take: bool,
+    dup_after_take: bool,
+}
+
+struct ThreadSt {
+    at: Option<Pt>, // None = finished
+    prog_pos: usize,
+    cur_op: Option<OpK>,
+    in_drop: bool,
+    owned: u32,
+    cur_load_step: Option<usize>,
+    cur_cas_step: Option<usize>,
+    results: Vec<ResK>,
+}
+
+impl ThreadSt {
+    /// handles this thread keeps alive: the ones it owns plus the one a take / drop is consuming whose
+    /// Arc decrement has not happened yet (it happens in the grant that leaves the take's own
+    /// load / compare_exchange, resp. in the first grant of a drop)
+    fn alive(&self) -> u32 {
+        let consuming = matches!(self.cur_op, Some(OpK::Take)) && !self.in_drop && matches!(self.at, Some(Pt::Load) | Some(Pt::Cas));
+        self.owned + consuming as u32
+    }
+}
+
+const RECV_TIMEOUT: Duration = Duration::from_secs(20);
+
+/// run the programs once: follow `prefix`, afterwards always grant the lowest enabled thread
+fn execute(pool: &Pool, base_fd: i32, programs: &[Vec<OpK>], prefix: &[u8]) -> Exec {
+    let n = programs.len();
+    let orig = unsafe { libc::fcntl(base_fd, libc::F_DUPFD_CLOEXEC, 300) };
+    assert!(orig >= 300, "cannot create the shared descriptor");
+    let mut ex = Exec {
+        schedule: Vec::new(),
+        enabled: Vec::new(),
+        obs: String::new(),
+        violations: Vec::new(),
+        fatal: None,
+        preempted_mid_op: false,
+        take_won: false,
+        take_lost_cas: 0,
+        closes_orig: 0,
+        last_drop_in_take: false,
+        dup_after_take: false,
+    };
+    let mut th: Vec<ThreadSt> = (0..n)
+        .map(|_| ThreadSt { at: None, prog_pos: 0, cur_op: None, in_drop: false, owned: 1, cur_load_step: None, cur_cas_step: None, results: Vec::new() })
+        .collect();
+    let mut recs: Vec<OpRec> = Vec::new();
+    let mut labels: Vec<String> = Vec::new();
+    let mut log: Vec<String> = Vec::new();
+    let mut dup_names: HashMap<i32, usize> = HashMap::new();
+    let mut dup_count = 0usize;
+    let mut pending_dup_log: Option<usize> = None;
+    let mut closed_while_alive_reported = false;
+
+    // hand out the handles: the creator's own handle moves into thread 0, clones to the others
+    {
+        let first = UnixFd::new(orig);
+        let mut hs: Vec<UnixFd> = (1..n).map(|_| first.clone()).collect();
+        hs.insert(0, first);
+        for (i, h) in hs.into_iter().enumerate() {
+            pool.cmd[i].send(Cmd::Job { prog: programs[i].clone(), handle: h }).unwrap();
+        }
+    }
+    let name_of = |fd: i32, dup_names: &HashMap<i32, usize>| -> String {
+        if fd == orig {
+            "o".to_string()
+        } else if let Some(k) = dup_names.get(&fd) {
+            format!("d{}", k)
+        } else {
+            "?".to_string()
+        }
+    };
+    // every worker runs to its first blocking point (nothing shared is touched before it)
+    let mut waiting_first = n;
+    while waiting_first > 0 {
+        match spin_recv(&pool.rx, Some(RECV_TIMEOUT)) {
+            Some(Msg::Arrived { tid, pt, .. }) => {
+                th[tid].at = Some(pt);
+                waiting_first -= 1;
+            }
+            Some(Msg::Finished { tid, panicked, .. }) => {
+                th[tid].at = None;
+                if let Some(p) = panicked {
+                    ex.violations.push(format!("thread {} panicked: {}", tid, p));
+                }
+                waiting_first -= 1;
+            }
+            None => {
+                ex.fatal = Some("a worker did not reach its first point".into());
+                return ex;
+            }
+        }
+    }
+    let mut step = 0usize;
+    loop {
+        let mut mask = 0u8;
+        for (i, t) in th.iter().enumerate() {
+            if t.at.is_some() {
+                mask |= 1 << i;
+            }
+        }
+        if mask == 0 {
+            break;
+        }
+        let t = if step < prefix.len() { prefix[step] as usize } else { mask.trailing_zeros() as usize };
+        if mask & (1 << t) == 0 {
+            ex.fatal = Some(format!("schedule names thread {} which is not enabled at step {}", t, step));
+            break;
+        }
+        if let Some(&prev) = ex.schedule.last() {
+            let p = prev as usize;
+            if p != t && th[p].at.is_some() && th[p].at != Some(Pt::OpStart) {
+                ex.preempted_mid_op = true;
+            }
+        }
+        ex.schedule.push(t as u8);
+        ex.enabled.push(mask);
+        // what this grant executes
+        let at = th[t].at.unwrap();
+        match at {
+            Pt::OpStart => {
+                let op = programs[t].get(th[t].prog_pos).copied().unwrap_or(OpK::Drop);
+                th[t].prog_pos += 1;
+                th[t].cur_op = Some(op);
+                th[t].in_drop = false;
+                th[t].cur_load_step = None;
+                th[t].cur_cas_step = None;
+                match op {
+                    OpK::Take | OpK::Drop => th[t].owned -= 1, // the drop's decrement happens within this grant
+                    OpK::Clone => th[t].owned += 1,
+                    _ => {}
+                }
+            }
+            Pt::Load => {
+                if !th[t].in_drop && th[t].cur_load_step.is_none() {
+                    th[t].cur_load_step = Some(step);
+                }
+            }
+            Pt::Cas => {
+                if !th[t].in_drop {
+                    th[t].cur_cas_step = Some(step);
+                }
+            }
+            Pt::InnerDrop => {}
+            Pt::Dup(fd) => {
+                log.push(format!("{}:dup:{}>", t, name_of(fd, &dup_names)));
+                pending_dup_log = Some(log.len() - 1);
+                if ex.take_won || recs.iter().any(|r| matches!(r.res, ResK::Take(Some(_)))) {
+                    ex.dup_after_take = true;
+                }
+            }
+            Pt::Close(fd) => {
+                log.push(format!("{}:close:{}", t, name_of(fd, &dup_names)));
+                if fd == orig {
+                    ex.closes_orig += 1;
+                    let alive: u32 = th.iter().map(|x| x.alive()).sum();
+                    if alive > 0 {
+                        ex.violations.push(format!("step {}: thread {} closes the original descriptor while {} handle(s) are alive", step, t, alive));
+                    }
+                } else {
+                    dup_names.remove(&fd);
+                }
+            }
+        }
+        pool.cmd[t].send(Cmd::Go).unwrap();
+        let msg = match spin_recv(&pool.rx, Some(RECV_TIMEOUT)) {
+            Some(m) => m,
+            None => {
+                ex.fatal = Some(format!("thread {} did not reach the next point after step {}", t, step));
+                break;
+            }
+        };
+        let (tid, new_at, result, notes, panicked) = match msg {
+            Msg::Arrived { tid, pt, result, notes } => (tid, Some(pt), result, notes, None),
+            Msg::Finished { tid, result, notes, panicked } => (tid, None, result, notes, panicked),
+        };
+        if tid != t {
+            ex.fatal = Some(format!("thread {} moved while thread {} was granted", tid, t));
+            break;
+        }
+        for nt in notes {
+            ex.violations.push(format!("thread {}: {}", t, nt));
+        }
+        if let Some(p) = panicked {
+            ex.violations.push(format!("thread {} panicked: {}", t, p));
+        }
+        // the duplicate's name: known when the duplicating thread arrives at the close of its result handle
+        if let Some(i) = pending_dup_log.take() {
+            match (&new_at, th[t].cur_op) {
+                (Some(Pt::Close(nfd)), Some(OpK::Dup)) => {
+                    dup_count += 1;
+                    dup_names.insert(*nfd, dup_count);
+                    log[i].push_str(&format!("d{}", dup_count));
+                    if *nfd == orig || !fd_open(*nfd) {
+                        ex.violations.push(format!("step {}: dup returned {} which is not a new open descriptor", step, nfd));
+                    }
+                }
+                _ => log[i].push_str("err"),
+            }
+        } else if let Pt::Close(cfd) = at {
+            if cfd != orig && fd_open(cfd) {
+                ex.violations.push(format!("step {}: the duplicate is still open after its close", step));
+            }
+        }
+        if new_at == Some(Pt::InnerDrop) {
+            th[t].in_drop = true;
+            if th[t].cur_op == Some(OpK::Take) {
+                ex.last_drop_in_take = true;
+            }
+        }
+        th[t].at = new_at;
+        if let Some(r) = result {
+            if let Some(op) = th[t].cur_op.take() {
+                if op == OpK::Take && matches!(r, ResK::Take(None)) && th[t].cur_cas_step.is_some() {
+                    ex.take_lost_cas += 1;
+                }
+                recs.push(OpRec { tid: t, kind: op, load_step: th[t].cur_load_step, cas_step: th[t].cur_cas_step, end_step: step, res: r.clone() });
+            }
+            th[t].results.push(r);
+            th[t].in_drop = false;
+        }
+        labels.push(match new_at {
+            None => "F".to_string(),
+            Some(Pt::OpStart) => "S".to_string(),
+            Some(Pt::Load) => "L".to_string(),
+            Some(Pt::Cas) => "X".to_string(),
+            Some(Pt::InnerDrop) => "I".to_string(),
+            Some(Pt::Dup(fd)) => format!("D{}", name_of(fd, &dup_names)),
+            Some(Pt::Close(fd)) => format!("C{}", name_of(fd, &dup_names)),
+        });
+        // kernel's view: the original must be open as long as a handle is alive
+        if !closed_while_alive_reported && !fd_open(orig) {
+            let alive: u32 = th.iter().map(|x| x.alive()).sum();
+            if alive > 0 {
+                closed_while_alive_reported = true;
+                ex.violations.push(format!("after step {} (thread {}): the original descriptor is closed in the kernel while {} handle(s) are alive", step, t, alive));
+            }
+        }
+        step += 1;
+        if step > 400 {
+            ex.fatal = Some("more than 400 steps".into());
+            break;
+        }
+    }
+    if ex.fatal.is_some() {
+        return ex;
+    }
+    check_execution(&mut ex, &recs, orig);
+    let final_open = fd_open(orig);
+    let taken = recs.iter().any(|r| matches!(r.res, ResK::Take(Some(_))));
+    ex.take_won = taken;
+    if taken {
+        if !final_open {
+            ex.violations.push("a take succeeded but the descriptor is closed at the end: the library closed a taken descriptor".into());
+        }
+    } else if final_open {
+        ex.violations.push("nobody took the descriptor, all handles are dropped, and it is still open: never closed".into());
+    }
+    if final_open {
+        unsafe { libc::close(orig) };
+    }
+    let expected_closes = if taken { 0 } else { 1 };
+    if ex.closes_orig != expected_closes {
+        ex.violations.push(format!("{} close call(s) on the original descriptor, expected {} (taken: {})", ex.closes_orig, expected_closes, taken));
+    }
+    for (fd, k) in dup_names.iter() {
+        ex.violations.push(format!("duplicate d{} (fd {}) was never closed", k, fd));
+    }
+    let show = |r: &ResK| -> String {
+        match r {
+            ResK::Take(Some(fd)) => format!("T{}", if *fd == orig { "o" } else { "?" }),
+            ResK::Take(None) => "t-".into(),
+            ResK::Get(Some(fd)) => format!("G{}", if *fd == orig { "o" } else { "?" }),
+            ResK::Get(None) => "g-".into(),
+            ResK::DupOk(_) => "D".into(), // completed below with the duplicate's name
+            ResK::DupTaken => "d-".into(),
+            ResK::DupIo => "dE".into(),
+            ResK::Cloned => "c".into(),
+            ResK::Dropped => "x".into(),
+        }
+    };
+    // names of the duplicates in results: the k-th successful dup system call made the k-th name; recover it
+    // from the log (entries "<tid>:dup:<src>>d<k>" of that thread, in order)
+    let mut res_strs: Vec<String> = Vec::new();
+    for (t, x) in th.iter().enumerate() {
+        let mut names = log.iter().filter(|l| l.starts_with(&format!("{}:dup:", t)) && !l.ends_with("err")).map(|l| l.rsplit('>').next().unwrap().to_string());
+        let v: Vec<String> = x
+            .results
+            .iter()
+            .map(|r| if let ResK::DupOk(_) = r { format!("D{}", names.next().unwrap_or("?".into())) } else { show(r) })
+            .collect();
+        res_strs.push(if v.is_empty() { "-".into() } else { v.join(",") });
+    }
+    ex.obs = format!(
+        "steps={} res={} log={} final={} fin=1",
+        if labels.is_empty() { "-".to_string() } else { labels.join(",") },
+        res_strs.join("|"),
+        if log.is_empty() { "-".to_string() } else { log.join(",") },
+        if final_open { "open" } else { "closed" }
+    );
+    ex
+}
+
+/// the property, evaluated on one execution of the real code
+fn check_execution(ex: &mut Exec, recs: &[OpRec], orig: i32) {
+    let winners: Vec<&OpRec> = recs.iter().filter(|r| matches!(r.res, ResK::Take(Some(_)))).collect();
+    if winners.len() > 1 {
+        ex.violations.push(format!(
+            "{} takes succeeded (threads {:?})",
+            winners.len(),
+            winners.iter().map(|w| w.tid).collect::<Vec<_>>()
+        ));
+    }
+    for w in &winners {
+        if w.res != ResK::Take(Some(orig)) {
+            ex.violations.push(format!("thread {}: take returned {:?}, not the original descriptor", w.tid, w.res));
+        }
+        // real-time order: the take's compare_exchange (if the code has none: its return)
+        let point = w.cas_step.unwrap_or(w.end_step);
+        for r in recs {
+            if std::ptr::eq(r, *w) || !matches!(r.kind, OpK::Take | OpK::Get | OpK::Dup) {
+                continue;
+            }
+            if let Some(l) = r.load_step {
+                if l > point && r.res.sees_fd() {
+                    ex.violations.push(format!(
+                        "thread {}: {:?} whose first atomic step is step {} returned {:?} although thread {}'s take succeeded at step {}",
+                        r.tid, r.kind, l, r.res, w.tid, point
+                    ));
+                }
+            }
+        }
+    }
+    for r in recs {
+        if let ResK::Get(Some(fd)) = r.res {
+            if fd != orig {
+                ex.violations.push(format!("thread {}: get returned {} which is not the original descriptor", r.tid, fd));
+            }
+        }
+        if r.res == ResK::DupIo {
+            ex.violations.push(format!("thread {}: dup failed with an I/O error (source descriptor not open?)", r.tid));
+        }
+    }
+}
+
+fn prog_str(p: &[OpK]) -> String {
+    if p.is_empty() {
+        "-".into()
+    } else {
+        p.iter().map(|o| o.ch()).collect()
+    }
+}
+
+fn request(programs: &[Vec<OpK>], schedule: &[u8]) -> String {
+    format!(
+        "c12.run {} {}",
+        programs.iter().map(|p| prog_str(p)).collect::<Vec<_>>().join("|"),
+        if schedule.is_empty() { "-".to_string() } else { schedule.iter().map(|t| (b'0' + t) as char).collect() }
+    )
+}
+
+struct Stats {
+    executions: u64,
+    max_len: usize,
+    fatal: bool,
+}
+
+fn record(out: &mut Out, st: &mut Stats, programs: &[Vec<OpK>], ex: &Exec) {
+    let req = request(programs, &ex.schedule);
+    if let Some(f) = &ex.fatal {
+        out.violation(&req, &format!("execution aborted: {}", f));
+        st.fatal = true;
+        return;
+    }
+    for v in &ex.violations {
+        out.violation(&req, v);
+    }
+    st.executions += 1;
+    st.max_len = st.max_len.max(ex.schedule.len());
+    out.hit("executions");
+    out.hit_n("steps_total", ex.schedule.len() as u64);
+    if ex.take_won {
+        out.hit("exec_take_won");
+    } else {
+        out.hit("exec_not_taken_closed_by_last_drop");
+    }
+    if ex.take_lost_cas > 0 {
+        out.hit("exec_take_lost_compare_exchange");
+    }
+    if ex.last_drop_in_take {
+        out.hit("exec_last_drop_inside_take");
+    }
+    if ex.dup_after_take {
+        out.hit("exec_dup_syscall_after_take");
+    }
+    if ex.preempted_mid_op {
+        out.hit("exec_preempted_inside_operation");
+    }
+    out.case(&req, &ex.obs, ex.preempted_mid_op);
+}
+
+/// every complete schedule of this program set, depth first
+fn explore(out: &mut Out, st: &mut Stats, pool: &Pool, base_fd: i32, programs: &[Vec<OpK>]) -> u64 {
+    let mut prefix: Vec<u8> = Vec::new();
+    let mut count = 0u64;
+    loop {
+        let ex = execute(pool, base_fd, programs, &prefix);
+        record(out, st, programs, &ex);
+        count += 1;
+        if st.fatal {
+            return count;
+        }
+        let mut next: Option<Vec<u8>> = None;
+        let mut i = ex.schedule.len();
+        while i > 0 {
+            i -= 1;
+            let cur = ex.schedule[i];
+            let mask = ex.enabled[i];
+            let higher = (mask as u32) >> (cur + 1);
+            if higher != 0 {
+                let t = cur + 1 + higher.trailing_zeros() as u8;
+                let mut p = ex.schedule[..i].to_vec();
+                p.push(t);
+                next = Some(p);
+                break;
+            }
+        }
+        match next {
+            Some(p) => prefix = p,
+            None => return count,
+        }
+    }
+}
+
+/// all programs of at most `max_len` operations that the borrow checker accepts for a thread that starts
+/// with one handle (an operation needs a handle; take and drop consume one, clone adds one)
+fn valid_programs(max_len: usize) -> Vec<Vec<OpK>> {
+    let mut all: Vec<Vec<OpK>> = vec![vec![]];
+    let mut frontier: Vec<(Vec<OpK>, u32)> = vec![(vec![], 1)];
+    for _ in 0..max_len {
+        let mut nf = Vec::new();
+        for (p, h) in &frontier {
+            if *h == 0 {
+                continue;
+            }
+            for op in ALL_OPS {
+                let mut q = p.clone();
+                q.push(op);
+                let h2 = match op {
+                    OpK::Take | OpK::Drop => h - 1,
+                    OpK::Clone => h + 1,
+                    _ => *h,
+                };
+                all.push(q.clone());
+                nf.push((q, h2));
+            }
+        }
+        frontier = nf;
+    }
+    all
+}
+
+/// upper bound for the number of scheduling decisions a program needs when it runs alone and is not
+/// the last dropper: take 3 (start, load, compare_exchange), get 2, dup 4 (start, load, dup, close of the
+/// duplicate), clone 1, drop 1, plus one drop per handle left at the end
+fn weight(p: &[OpK]) -> u64 {
+    let mut h: i64 = 1;
+    let mut w = 0u64;
+    for op in p {
+        w += match op {
+            OpK::Take => {
+                h -= 1;
+                3
+            }
+            OpK::Get => 2,
+            OpK::Dup => 4,
+            OpK::Clone => {
+                h += 1;
+                1
+            }
+            OpK::Drop => {
+                h -= 1;
+                1
+            }
+        };
+    }
+    w + h.max(0) as u64
+}
+
+/// multinomial (w0 + w1 + .. + 4)! / (w0! w1! ..  4!)-free bound: number of interleavings of sequences of
+/// these lengths, where the 4 steps of the last drop (InnerDrop, load, compare_exchange, close) are added
+/// to the longest one
+fn interleavings_bound(ws: &[u64]) -> f64 {
+    let mut ws: Vec<u64> = ws.to_vec();
+    ws.sort();
+    *ws.last_mut().unwrap() += 4;
+    let mut total = 0u64;
+    let mut r = 1f64;
+    for w in ws {
+        for k in 1..=w {
+            total += 1;
+            r = r * total as f64 / k as f64;
+        }
+    }
+    r
+}
+
 pub fn run(cfg: &Cfg) {
-    let out = Out::new(&cfg.outdir);
-    out.finish("stub", false);
+    std::panic::set_hook(Box::new(|_| {}));
+    let mut out = Out::new(&cfg.outdir);
+    let devnull = std::ffi::CString::new("/dev/null").unwrap();
+    let base_fd = unsafe { libc::open(devnull.as_ptr(), libc::O_RDONLY | libc::O_CLOEXEC) };
+    assert!(base_fd >= 0);
+    let pool = Pool::new(3);
+    let mut st = Stats { executions: 0, max_len: 0, fatal: false };
+
+    if let Some(line) = &cfg.replay {
+        let toks: Vec<&str> = line.split_whitespace().collect();
+        if toks.len() == 3 && toks[0] == "c12.run" {
+            let programs: Vec<Vec<OpK>> = toks[1]
+                .split('|')
+                .map(|p| if p == "-" { vec![] } else { p.chars().filter_map(OpK::parse).collect() })
+                .collect();
+            let prefix: Vec<u8> = if toks[2] == "-" { vec![] } else { toks[2].bytes().map(|b| b.wrapping_sub(b'0')).collect() };
+            if programs.len() <= 3 {
+                let ex = execute(&pool, base_fd, &programs, &prefix);
+                record(&mut out, &mut st, &programs, &ex);
+            }
+        }
+        out.finish("replay of one schedule", false);
+        if !st.fatal {
+            pool.quit();
+        }
+        return;
+    }
+
+    // ---- 2 threads: all unordered pairs of valid programs of <= 3 operations whose static interleaving
+    //      bound is <= cap2
+    let envf = |k: &str, d: f64| std::env::var(k).ok().and_then(|v| v.parse().ok()).unwrap_or(d);
+    let (len2, cap2) = if cfg.thorough { (4usize, envf("C12_CAP2", 60000f64)) } else { (3usize, envf("C12_CAP2", 2600f64)) };
+    let progs2 = valid_programs(len2);
+    let mut sets = 0u64;
+    let mut complete = true;
+    'outer2: for i in 0..progs2.len() {
+        for j in i..progs2.len() {
+            let b = interleavings_bound(&[weight(&progs2[i]), weight(&progs2[j])]);
+            if b > cap2 {
+                continue;
+            }
+            let programs = vec![progs2[i].clone(), progs2[j].clone()];
+            let c = explore(&mut out, &mut st, &pool, base_fd, &programs);
+            sets += 1;
+            out.hit("program_sets_2_threads");
+            out.hit_n("schedules_2_threads", c);
+            if st.fatal {
+                complete = false;
+                break 'outer2;
+            }
+        }
+    }
+    // ---- 3 threads
+    if !st.fatal {
+        let (len3, cap3) = if cfg.thorough { (2usize, envf("C12_CAP3", 40000f64)) } else { (1usize, envf("C12_CAP3", 2600f64)) };
+        let progs3 = valid_programs(len3);
+        'outer3: for i in 0..progs3.len() {
+            for j in i..progs3.len() {
+                for k in j..progs3.len() {
+                    let b = interleavings_bound(&[weight(&progs3[i]), weight(&progs3[j]), weight(&progs3[k])]);
+                    if b > cap3 {
+                        continue;
+                    }
+                    let programs = vec![progs3[i].clone(), progs3[j].clone(), progs3[k].clone()];
+                    let c = explore(&mut out, &mut st, &pool, base_fd, &programs);
+                    sets += 1;
+                    out.hit("program_sets_3_threads");
+                    out.hit_n("schedules_3_threads", c);
+                    if st.fatal {
+                        complete = false;
+                        break 'outer3;
+                    }
+                }
+            }
+        }
+    }
+    out.hit_n("max_schedule_length", st.max_len as u64);
+    out.hit_n("program_sets", sets);
+    let rule = format!(
+        "real threads under a deterministic scheduler (verif_hooks callback blocks at every FdLoad / FdCompareExchange / FdInnerDrop / FdDup / FdClose point and at every operation start; one thread runs at a time); EVERY complete interleaving (stateless DFS, programs re-run from scratch per schedule) of: all unordered pairs of borrow-valid programs of <= {} operations over take/get/dup/clone/drop (each thread starts with one clone of the handle and drops what it still owns at its end) whose static interleaving bound is <= {}, and all unordered triples of such programs of <= {} operation(s) with bound <= {}; one case per complete schedule (request = programs + schedule, so distinct by construction); non-trivial = some thread was preempted inside an operation",
+        len2,
+        cap2,
+        if cfg.thorough { 2 } else { 1 },
+        if cfg.thorough { 40000 } else { 2600 }
+    );
+    out.finish(&rule, complete);
+    if !st.fatal {
+        pool.quit();
+    }
 }
